@@ -206,4 +206,14 @@ pub fn run(ctx: &Ctx) {
         crate::checks::c08::prove_case_strategy,
         crate::checks::c08::oracle_prove_honest,
     );
+    // the same circuits with the permutation table exactly full (no padding row: the cyclic
+    // last-row -> row-0 window is then a window between two real rows)
+    let n = ctx.tier.pick(400, 20_000);
+    ctx.explore(
+        "mmcs-circuits-full-table",
+        crate::checks::c08::RULE_PROVE,
+        n,
+        crate::checks::c08::prove_case_strategy,
+        crate::checks::c08::oracle_prove_honest_full,
+    );
 }
